@@ -11,7 +11,10 @@ var vhSwapParents = false
 // vhMut applies one structural mutation to an otherwise produced-shape history
 // (valid mode only): 1 = commit pos becomes an additional root, 2 = the root pos has no
 // creation clock, 3 = the merge commit pos carries an operation, 4 = the pack of pos is
-// undecodable, 5 = no pack holds any operation (an empty entity). Clock values are symbolic and unconstrained in any case.
+// undecodable, 5 = no pack holds any operation (an empty entity), 6 = an operation of pos
+// fails its own validation, 7 = an operation of pos is authored by somebody else than its
+// pack, 8 = an operation of pos repeats the id of the first operation. Clock values are
+// symbolic and unconstrained in any case.
 var vhMut struct{ kind, pos int }
 
 // vhFixedShape, when set, replaces the enumeration of parent assignments by one given
@@ -77,8 +80,25 @@ func vhGenDag(n int, hostile bool, maxParents int) *vhDag {
 		if !hostile && vhMut.kind == 5 {
 			nops = 0 // a history without any operation
 		}
+		if mutHere && vhMut.kind >= 6 && nops == 0 {
+			rt.Assume(false) // no operation to spoil here
+		}
 		for k := 0; k < nops; k++ {
-			ops = append(ops, vhNewOp(nop, author))
+			op := vhNewOp(nop, author)
+			if mutHere && k == nops-1 {
+				switch vhMut.kind {
+				case 6:
+					op.Bad = true
+				case 7:
+					op = vhNewOp(nop, vhAuthors[1])
+				case 8:
+					if nop == 0 {
+						rt.Assume(false) // nothing to repeat yet
+					}
+					op = vhNewOp(0, author) // the id of the very first operation again
+				}
+			}
+			ops = append(ops, op)
 			nop++
 		}
 		d.vhAddCommit(ps, edit, create, hasCreate, ops, author)
